@@ -381,10 +381,28 @@ func entriesVsAds(name, other string, removeHandler bool, so ...dagsync.Option) 
 	return entriesVsAdsLK(name, other, removeHandler, false, so...)
 }
 
+// ---- S14: the one-chunk entry point (SyncOneEntry) overlapping an
+// announcement / an explicit sync of the same publisher: it is a sync of that
+// publisher like any other
+func oneEntryVsAds(other string) *sched.Scenario {
+	oneEntrySync = true
+	sc := entriesVsAdsLK("S14-one-entry-sync+"+other, other, false, false)
+	oneEntrySync = false
+	return sc
+}
+
+// oneEntrySync is read when a scenario is built.
+var oneEntrySync bool
+
 // withLastKnown: the subscriber gets WithLastKnownSync(oldest advertisement)
 // (the callback needs the chain, which exists only inside Setup) and a real
 // sync up to advertisement 1 precedes the explored part.
 func entriesVsAdsLK(name, other string, removeHandler, withLastKnown bool, so ...dagsync.Option) *sched.Scenario {
+	oneEntry := oneEntrySync
+	wantEntries := 2
+	if oneEntry {
+		wantEntries = 1
+	}
 	wantAds := 2
 	if withLastKnown {
 		wantAds = 1
@@ -418,7 +436,12 @@ func entriesVsAdsLK(name, other string, removeHandler, withLastKnown bool, so ..
 			threads := []sched.Thread{
 				{Name: "E", Fn: func() {
 					e.Log("E entries-sync begin")
-					err := w.Sub.SyncEntries(context.Background(), p.AddrInfo(), ech.Head())
+					var err error
+					if oneEntry {
+						err = w.Sub.SyncOneEntry(context.Background(), p.AddrInfo(), ech.Head())
+					} else {
+						err = w.Sub.SyncEntries(context.Background(), p.AddrInfo(), ech.Head())
+					}
 					e.Log("E entries-sync end err=%v", err)
 				}},
 				{Name: "A", Fn: func() {
@@ -483,8 +506,8 @@ func entriesVsAdsLK(name, other string, removeHandler, withLastKnown bool, so ..
 			}
 			// the latest-synced value (block 0, from the set-up) survives the
 			// removal of the handler, so the ad sync covers blocks 2 and 1
-			if len(kinds) != 2+wantAds {
-				out = append(out, sched.Finding{Sig: name + ":wrong-number-of-hook-calls", Msg: fmt.Sprintf("%v (want 2 entry chunks and %d advertisement(s))", kinds, wantAds)})
+			if len(kinds) != wantEntries+wantAds {
+				out = append(out, sched.Finding{Sig: name + ":wrong-number-of-hook-calls", Msg: fmt.Sprintf("%v (want %d entry chunk(s) and %d advertisement(s))", kinds, wantEntries, wantAds)})
 			}
 			if f.latest[0] != 2 {
 				out = append(out, sched.Finding{Sig: name + ":latest-not-last-announced", Msg: fmt.Sprintf("latest synced is block[%d], want block[2]; events %v", f.latest[0], f.events)})
@@ -640,7 +663,7 @@ func scoped() *sched.Scenario {
 
 func TestCheck(t *testing.T) {
 	r := vp.New("C08", "model_checking",
-		"scenarios over the real subscriber built with the instrumentation overlay (gated in-memory publishers, chains of 3-4 signed ads, first ad pre-synced): S1 burst of 3 announcements to one publisher; S2 the same with a failing block request; S3 k publishers x 2 announcements with MaxAsyncConcurrency unset/1/2; S4 announcements plus an explicit sync (queried head) of the same publisher; S12 the same on a subscriber that syncs in segments of one advertisement (SegmentDepthLimit(1)); S13 an entries sync overlapping an announcement / explicit sync of the same publisher on such a subscriber; S5 two explicit syncs of one publisher with different scoped hooks; S8 the burst of S1 under MaxAsyncConcurrency(2), i.e. with free slots; S9 an entries sync of a publisher whose handler was removed overlapping an announcement / an explicit sync of that publisher; S9k the same after a real sync on a subscriber configured with WithLastKnownSync (a callback that knows only the oldest advertisement); S10 an allow filter rejecting one peer, which announces the publisher's new head before / after the publisher does; S11 an announcement after a silence longer than the idle-handler time-to-live (virtual time). All interleavings of harness threads, library goroutines (watcher, per-announcement handler, distributor), publisher requests and hook calls at the scheduling points (every lock, atomic, channel operation, select, spawn, request, hook call, observation) up to the preemption bound. states = distinct decision states; transitions = scheduling steps; traces = executions of the real code.",
+		"scenarios over the real subscriber built with the instrumentation overlay (gated in-memory publishers, chains of 3-4 signed ads, first ad pre-synced): S1 burst of 3 announcements to one publisher; S2 the same with a failing block request; S3 k publishers x 2 announcements with MaxAsyncConcurrency unset/1/2; S4 announcements plus an explicit sync (queried head) of the same publisher; S12 the same on a subscriber that syncs in segments of one advertisement (SegmentDepthLimit(1)); S13 an entries sync overlapping an announcement / explicit sync of the same publisher on such a subscriber; S5 two explicit syncs of one publisher with different scoped hooks; S8 the burst of S1 under MaxAsyncConcurrency(2), i.e. with free slots; S9 an entries sync of a publisher whose handler was removed overlapping an announcement / an explicit sync of that publisher; S9k the same after a real sync on a subscriber configured with WithLastKnownSync (a callback that knows only the oldest advertisement); S14 a SyncOneEntry overlapping an announcement of the same publisher; S10 an allow filter rejecting one peer, which announces the publisher's new head before / after the publisher does; S11 an announcement after a silence longer than the idle-handler time-to-live (virtual time). All interleavings of harness threads, library goroutines (watcher, per-announcement handler, distributor), publisher requests and hook calls at the scheduling points (every lock, atomic, channel operation, select, spawn, request, hook call, observation) up to the preemption bound. states = distinct decision states; transitions = scheduling steps; traces = executions of the real code.",
 		"cooperative scheduling at synchronization operations; select statements try cases in source order; bursts of 3 announcements, at most 3 publishers",
 		"discovery requests are made in a free-running warm-up sync before the explored part",
 	)
@@ -654,7 +677,7 @@ func TestCheck(t *testing.T) {
 	// S8: the burst of S1 under a limit of concurrent announce-triggered syncs
 	// that leaves slots free (one publisher, limit 2): announcements of one
 	// publisher are handled one after the other whatever the limit is
-	scs := []*sched.Scenario{burstOf("S6b-reannounce-synced-head-then-one-new", -1, []int{0, 1}), burstOf("S6-reannounce-synced-head-then-new", -1, []int{0, 1, 2}), multiOf(3, 1, 1, true), burst("S1-burst", -1), burstOf("S8-burst-limit2", -1, []int{1, 2, 3}, dagsync.MaxAsyncConcurrency(2)), multi(2, 0), multi(2, 1), mixed(), mixedSegmented(), entriesVsSegmentedAds("announce"), entriesVsSegmentedAds("explicit"), scoped(), entriesOfHandlerlessPublisher("announce"), entriesOfHandlerlessPublisher("explicit"), entriesOfHandlerlessPublisherLastKnown("announce"), rejectedThenAllowed(), announceAfterIdleCleanup(), burst("S2-burst-failing-request", 2)}
+	scs := []*sched.Scenario{burstOf("S6b-reannounce-synced-head-then-one-new", -1, []int{0, 1}), burstOf("S6-reannounce-synced-head-then-new", -1, []int{0, 1, 2}), multiOf(3, 1, 1, true), burst("S1-burst", -1), burstOf("S8-burst-limit2", -1, []int{1, 2, 3}, dagsync.MaxAsyncConcurrency(2)), multi(2, 0), multi(2, 1), mixed(), mixedSegmented(), entriesVsSegmentedAds("announce"), entriesVsSegmentedAds("explicit"), scoped(), entriesOfHandlerlessPublisher("announce"), entriesOfHandlerlessPublisher("explicit"), entriesOfHandlerlessPublisherLastKnown("announce"), oneEntryVsAds("announce"), rejectedThenAllowed(), announceAfterIdleCleanup(), burst("S2-burst-failing-request", 2)}
 	if thorough {
 		scs = append(scs, multi(2, 2), multi(3, 1), multi(3, 2))
 	}
